@@ -1,0 +1,18 @@
+package sharedfile
+
+import "github.com/go-git/go-git/v6/internal/verifhook"
+
+// verifEmit reports the SharedFile state after a critical section. It must be
+// called with s.mu held. It is a no-op unless built with the "verif" tag.
+func (s *SharedFile) verifEmit(ev string) {
+	if !verifhook.Enabled {
+		return
+	}
+	b := func(v bool) int64 {
+		if v {
+			return 1
+		}
+		return 0
+	}
+	verifhook.Emit(s, ev, int64(s.refs), b(s.file != nil), b(s.closed), b(s.immediateClose), b(s.timer != nil), int64(s.gen))
+}
